@@ -116,7 +116,7 @@ def subterms(t):
         x = stk.pop()
         if isinstance(x, tuple):
             yield x
-            for y in (x if isinstance(x[0], tuple) else x[1:]):        # a struct's field list starts with a (name, value) pair
+            for y in (x if x and isinstance(x[0], tuple) else x[1:]):        # a struct's field list starts with a (name, value) pair
                 if isinstance(y, tuple):
                     stk.append(y)
 
@@ -2098,6 +2098,7 @@ class _Activation:
                 if name not in self.stack and self.depth < self.e.inline_depth + 3 and self.e.is_new_helper(name):
                     u2, f2 = self.e.find_fn(name)
                     self.e.auto_inlined.add(name)
+                    LOOKED_THROUGH.add(name)
                     out += self.inline_call(u2, name, vals, s, n)
                     continue
                 desc, kind_, chain = name, 'call', None
@@ -2222,6 +2223,7 @@ class _Activation:
 
 
 _KNOWN = None
+LOOKED_THROUGH = set()       # helpers newer than the confirmed function table that some engine expanded in this run
 
 
 def KNOWN_FUNCTIONS():
